@@ -162,6 +162,34 @@ func buildC10(c *core.Ctx, v c10Variant, root string) (*c10Chain, error) {
 		cmd2.Dump(filepath.Join(ch.linkDir, gen.LinkName("delegated-too", D2.Pub.KeyID)))
 		layout.Steps = append(layout.Steps, gen.Step("delegated-too", 1, gen.KeyIDs(D2), [][]string{{"ALLOW", "*"}}, [][]string{{"ALLOW", "*"}}))
 		layout.Keys[D2.Pub.KeyID] = D2.Pub
+		if !v.DSSE {
+			// a third one whose functionary is authorized through a certificate constraint (the signature on
+			// the sublayout carries the certificate); the layout also lists the functionary's key
+			D3 := fast[11]
+			d3PEM, _, cerr := ca.Issue(gen.CertSpec{CN: "delegate"}, D3.Public)
+			if cerr != nil {
+				return nil, cerr
+			}
+			fn3 := gen.Functionary{KeyPair: D3, CertPEM: d3PEM}
+			child3 := &gen.Nest{Level: 1, Signer: D3, Prep: fast[7], Sub: fast[5], Final: fast[6]}
+			child3.Build()
+			subDir3 := filepath.Join(ch.linkDir, fmt.Sprintf(intoto.SublayoutLinkDirFormat, "delegated-by-certificate", D3.Pub.KeyID))
+			if _, err := child3.WriteLinks(subDir3, false); err != nil {
+				return nil, err
+			}
+			cmd3, err := gen.SignedMeta(child3.Layout, false, fn3.SigningKey())
+			if err != nil {
+				return nil, err
+			}
+			cmd3.Dump(filepath.Join(ch.linkDir, gen.LinkName("delegated-by-certificate", D3.Pub.KeyID)))
+			st3 := gen.Step("delegated-by-certificate", 1, nil, [][]string{{"ALLOW", "*"}}, [][]string{{"ALLOW", "*"}})
+			st3.PubKeys = []string{}
+			dc := gen.WildcardConstraint()
+			dc.CommonName = "delegate"
+			st3.CertificateConstraints = []intoto.CertificateConstraint{dc}
+			layout.Steps = append(layout.Steps, st3)
+			layout.Keys[D3.Pub.KeyID] = D3.Pub
+		}
 	}
 	signers := []intoto.Key{owner.Priv}
 	ch.keys = gen.KeyMap(owner)
@@ -627,7 +655,7 @@ func init() {
 	core.Register(&core.Property{
 		ID:    "C10",
 		Level: "exploration",
-		Rule: "chains biased to the anchors: step with one key-authorized and one certificate-authorized link (threshold 0, 1 and 2; the two links agreeing or disagreeing), certificate constraint lists that are not sorted, rules / expected command / inspection run with {PRODUCT} and {MARK} markers, a link whose artifact path needs cleaning (./bin//app) consumed by a MATCH rule, optionally two steps delegated to sublayouts of two functionaries, two supplied layout keys (both signed / second without a signature / second with a corrupt signature), an inspection executable given by a relative path, three valid links of which one disagrees, a MATCH rule between artifacts that carry two digest algorithms of which only one agrees; the layout has an intermediate CA of its own and the caller passes a list of additional intermediates with spare capacity whose backing array is compared before/after; 2 wrappers x 2 entry points; all histories of length<=2 plus 12 of length 3 (quick) / all of length<=3 plus 30 of length 4 (thorough) over the dictionaries {none, p (accepting), q (rejecting), r (a value containing another parameter's marker)} on ONE in-memory layout object: every outcome (verdict, summary, executed marker) must equal the outcome of a freshly loaded copy, and the serialisation of the layout object (payload, signatures, dumped envelope), of the key map and of the dictionary, and (entry point with a run directory of its own) the content of the inspected directory must be unchanged after every call; two sound chains whose layouts define one key id with different key material are verified alternately (6 verifications, all accepted); a sound nested chain verified alternately with a broken one, 30 rounds (failures leave nothing behind); each baseline is repeated R=16 (quick) / 64 (thorough) times and each history R/4 times with fresh maps. " +
+		Rule: "chains biased to the anchors: step with one key-authorized and one certificate-authorized link (threshold 0, 1 and 2; the two links agreeing or disagreeing), certificate constraint lists that are not sorted, rules / expected command / inspection run with {PRODUCT} and {MARK} markers, a link whose artifact path needs cleaning (./bin//app) consumed by a MATCH rule, optionally two steps delegated to sublayouts of two functionaries and (legacy wrapper) a third one to a functionary who is authorized through a certificate constraint, two supplied layout keys (both signed / second without a signature / second with a corrupt signature), an inspection executable given by a relative path, three valid links of which one disagrees, a MATCH rule between artifacts that carry two digest algorithms of which only one agrees; the layout has an intermediate CA of its own and the caller passes a list of additional intermediates with spare capacity whose backing array is compared before/after; 2 wrappers x 2 entry points; all histories of length<=2 plus 12 of length 3 (quick) / all of length<=3 plus 30 of length 4 (thorough) over the dictionaries {none, p (accepting), q (rejecting), r (a value containing another parameter's marker)} on ONE in-memory layout object: every outcome (verdict, summary, executed marker) must equal the outcome of a freshly loaded copy, and the serialisation of the layout object (payload, signatures, dumped envelope), of the key map and of the dictionary, and (entry point with a run directory of its own) the content of the inspected directory must be unchanged after every call; two sound chains whose layouts define one key id with different key material are verified alternately (6 verifications, all accepted); a sound nested chain verified alternately with a broken one, 30 rounds (failures leave nothing behind); each baseline is repeated R=16 (quick) / 64 (thorough) times and each history R/4 times with fresh maps. " +
 			"non-trivial = history of length>=2 or R>=2 with >=2 links in a step; distinct = (variant, history)",
 		Assumptions: []string{"the iteration order taken inside the library is not observable; reported are R, the number of distinct outcomes per case and the number of distinct orders a same-sized probe map showed in the same process"},
 		Workers:     func(string) int { return 16 },
